@@ -93,6 +93,8 @@ fn base_programs(thorough: bool) -> Vec<(String, Program)> {
     for (fam, p) in crate::stmtfam::all_programs_len(if thorough { 3 } else { 2 }) {
         v.push((fam, p));
     }
+    // counts, magnitudes and lengths beyond the other families (the quick ladder in both tiers)
+    crate::stmtfam::scale_programs(false, &mut v);
     // expressions of size <= 1 in a few call-heavy contexts
     let space = crate::engines::c01::expr_space(1);
     for (t, size, xs) in &space {
